@@ -391,6 +391,9 @@ class FloatLit (F : Type) where
   parse : Str → Option F
   /-- `i64 as f64` -/
   ofInt : Int → F
+  /-- `formula::parse` does not panic on this text.  (Formula syntax is property C05; the
+  nodes of this model keep the formula's source text.) -/
+  formulaOk : Str → Bool
 
 /-! ## Stores (`store.rs`) -/
 
@@ -578,19 +581,10 @@ def concatText : List Elem → Str
   | .text s :: r => s ++ concatText r
   | _ :: r => concatText r
 
-/-- `TextView::view` of an element with the given children.  An element without
-children has the empty text; a single child goes through `roxmltree::Node::text`
-(text and comment nodes carry their text, an element child yields its own leading
-text, anything else is `unwrap` on `None`); several children: all text children
-concatenated. -/
-def textView (children : List Elem) : R Str :=
-  match children with
-  | [] => .ok []
-  | [.text s] => .ok s
-  | [.comment s] => .ok s
-  | [.node _ _ (.text s :: _)] => .ok s
-  | [_] => .panic
-  | cs => .ok (concatText cs)
+/-- `TextView::view` of an element with the given children: the concatenation of its
+text children (comments, processing instructions and child elements contribute nothing;
+an element without text children has the empty text). -/
+def textView (children : List Elem) : R Str := .ok (concatText children)
 
 /-- `Attributes::attribute_of` -/
 def attrOf (attrs : List (Str × Str)) (name : Str) : Option Str :=
@@ -904,7 +898,11 @@ def parseIfD {α : Type} (tag : Str) (p : P F α) (d : α) : P F α := do
 
 /-- `pVariable*`, `Constant*`, `Expression*` then what follows — shared by the four formula kinds -/
 def pVariables : P F (List (NamedValue Nat)) := parseWhile cs!"pVariable" (pNamedValue pNodeId)
-def pExpressions : P F (List (NamedValue Str)) := parseWhile cs!"Expression" (pNamedValue pString)
+/-- `impl Parse for Expr` / `Formula`: the text must be accepted by `formula::parse` -/
+def pFormula : P F Str := do
+  let t ← nextText
+  if FloatLit.formulaOk (F := F) t then return t else P.fail
+def pExpressions : P F (List (NamedValue Str)) := parseWhile cs!"Expression" (pNamedValue pFormula)
 
 /-- `impl Parse for IntSwissKnifeNode` on the element's own attributes / child cursor -/
 def pIntSwissKnife (attrs : List (Str × Str)) : P F IntSwissKnifeNode := do
@@ -914,7 +912,7 @@ def pIntSwissKnife (attrs : List (Str × Str)) : P F IntSwissKnifeNode := do
   let pVariables ← pVariables
   let constants ← parseWhile cs!"Constant" (pNamedValue pI64)
   let expressions ← pExpressions
-  let formula ← pString
+  let formula ← pFormula
   let unit ← parseIf cs!"Unit" pString
   let representation ← parseIfD cs!"Representation" (pTable intReprTable) .pureNumber
   return { attr, elem, streamable, pVariables, constants, expressions, formula, unit, representation }
@@ -1151,8 +1149,8 @@ def pConverter (attrs : List (Str × Str)) : P F (ConverterNode F) := do
   let pVariables ← pVariables
   let constants ← parseWhile cs!"Constant" (pNamedValue pF64)
   let expressions ← pExpressions
-  let formulaTo ← pString
-  let formulaFrom ← pString
+  let formulaTo ← pFormula
+  let formulaFrom ← pFormula
   let pValue ← pNodeId
   let unit ← parseIf cs!"Unit" pString
   let representation ← parseIfD cs!"Representation" (pTable floatReprTable) .pureNumber
@@ -1170,8 +1168,8 @@ def pIntConverter (attrs : List (Str × Str)) : P F IntConverterNode := do
   let pVariables ← pVariables
   let constants ← parseWhile cs!"Constant" (pNamedValue pI64)
   let expressions ← pExpressions
-  let formulaTo ← pString
-  let formulaFrom ← pString
+  let formulaTo ← pFormula
+  let formulaFrom ← pFormula
   let pValue ← pNodeId
   let unit ← parseIf cs!"Unit" pString
   let representation ← parseIfD cs!"Representation" (pTable intReprTable) .pureNumber
@@ -1186,7 +1184,7 @@ def pSwissKnife (attrs : List (Str × Str)) : P F (SwissKnifeNode F) := do
   let pVariables ← pVariables
   let constants ← parseWhile cs!"Constant" (pNamedValue pF64)
   let expressions ← pExpressions
-  let formula ← pString
+  let formula ← pFormula
   let unit ← parseIf cs!"Unit" pString
   let representation ← parseIfD cs!"Representation" (pTable floatReprTable) .pureNumber
   let displayNotation ← parseIfD cs!"DisplayNotation" (pTable displayNotationTable) .automatic
@@ -1196,9 +1194,26 @@ def pSwissKnife (attrs : List (Str × Str)) : P F (SwissKnifeNode F) := do
 
 /-! ### `struct_reg.rs` -/
 
+/-- `Declared`: the defaultable properties a `StructEntry` declares explicitly -/
+structure Declared where
+  visibility : Bool
+  isDeprecated : Bool
+  imposedAccessMode : Bool
+  streamable : Bool
+  accessMode : Bool
+  cacheable : Bool
+  deriving Repr, DecidableEq, Inhabited
+
+/-- `xml::Node::has_child`: some child element (anywhere among the children) has this tag -/
+def hasChild (children : List Elem) (tag : Str) : Bool :=
+  children.any fun e => match e with
+    | .node t _ _ => t == tag
+    | _ => false
+
 structure StructEntryNode where
   attr : AttrBase
   elem : ElemBase
+  declared : Declared
   pInvalidators : List Nat
   accessMode : AccessMode
   cacheable : CachingMode
@@ -1219,9 +1234,17 @@ structure StructRegNode where
 
 /-- `impl Parse for StructEntryNode`.  The entry's `pInvalidator`s directly follow the
 element base, whose parser consumes them; they are moved from there into the entry. -/
-def pStructEntry (pr : Profile) (tag : Str) (attrs : List (Str × Str)) : P F StructEntryNode := do
+def pStructEntry (pr : Profile) (tag : Str) (attrs : List (Str × Str)) (children : List Elem) :
+    P F StructEntryNode := do
   -- debug_assert_eq!(node.tag_name(), STRUCT_ENTRY): the caller takes ANY next child
   if pr.debugAsserts && tag != cs!"StructEntry" then P.fail
+  let declared : Declared :=
+    { visibility := hasChild children cs!"Visibility"
+      isDeprecated := hasChild children cs!"IsDeprecated"
+      imposedAccessMode := hasChild children cs!"ImposedAccessMode"
+      streamable := hasChild children cs!"Streamable"
+      accessMode := hasChild children cs!"AccessMode"
+      cacheable := hasChild children cs!"Cachable" }
   let attr ← pAttrBase attrs
   let elem ← pElemBase
   let more ← parseWhile cs!"pInvalidator" pNodeId
@@ -1236,30 +1259,30 @@ def pStructEntry (pr : Profile) (tag : Str) (attrs : List (Str × Str)) : P F St
   let unit ← parseIf cs!"Unit" pString
   let representation ← parseIfD cs!"Representation" (pTable intReprTable) .pureNumber
   let pSelected ← parseWhile cs!"pSelected" pNodeId
-  return { attr, elem, pInvalidators, accessMode, cacheable, pollingTime, streamable, bitMask,
-           sign, unit, representation, pSelected }
+  return { attr, elem, declared, pInvalidators, accessMode, cacheable, pollingTime, streamable,
+           bitMask, sign, unit, representation, pSelected }
 
 /-- `merge_impl!(lhs, rhs, name)`: the entry's `Some` wins -/
 def mergeOpt {α : Type} (lhs rhs : Option α) : Option α := if rhs.isSome then rhs else lhs
-/-- `merge_impl!(lhs, rhs, name, default)`: the entry's non-default value wins -/
-def mergeDefault {α : Type} [DecidableEq α] (d lhs rhs : α) : α := if rhs ≠ d then rhs else lhs
+/-- `merge_impl!(lhs, rhs, name, declared flag)`: the entry's value wins iff it is declared -/
+def mergeDeclared {α : Type} (declared : Bool) (lhs rhs : α) : α := if declared then rhs else lhs
 /-- `merge_impl!(lhs, rhs, name, vec)`: the entry's non-empty list wins -/
 def mergeVec {α : Type} (lhs rhs : List α) : List α := if !rhs.isEmpty then rhs else lhs
 
 /-- `NodeElementBase::merge` (`p_invalidators` of the element base is not merged). -/
-def ElemBase.merge (l r : ElemBase) : ElemBase :=
+def ElemBase.merge (l r : ElemBase) (d : Declared) : ElemBase :=
   { tooltip := mergeOpt l.tooltip r.tooltip
     description := mergeOpt l.description r.description
     displayName := mergeOpt l.displayName r.displayName
-    visibility := mergeDefault .beginner l.visibility r.visibility
+    visibility := mergeDeclared d.visibility l.visibility r.visibility
     docuUrl := mergeOpt l.docuUrl r.docuUrl
-    isDeprecated := mergeDefault false l.isDeprecated r.isDeprecated
+    isDeprecated := mergeDeclared d.isDeprecated l.isDeprecated r.isDeprecated
     eventId := mergeOpt l.eventId r.eventId
     pIsImplemented := mergeOpt l.pIsImplemented r.pIsImplemented
     pIsAvailable := mergeOpt l.pIsAvailable r.pIsAvailable
     pIsLocked := mergeOpt l.pIsLocked r.pIsLocked
     pBlockPolling := mergeOpt l.pBlockPolling r.pBlockPolling
-    imposedAccessMode := mergeDefault .rw l.imposedAccessMode r.imposedAccessMode
+    imposedAccessMode := mergeDeclared d.imposedAccessMode l.imposedAccessMode r.imposedAccessMode
     pErrors := mergeVec l.pErrors r.pErrors
     pAlias := mergeOpt l.pAlias r.pAlias
     pCastAlias := mergeOpt l.pCastAlias r.pCastAlias
@@ -1270,10 +1293,10 @@ def StructEntryNode.toMasked (e : StructEntryNode) (reg : RegBase) (endianness :
     MaskedIntRegNode :=
   { attr := e.attr
     reg := { reg with
-      elemBase := reg.elemBase.merge e.elem
-      streamable := mergeDefault false reg.streamable e.streamable
-      accessMode := mergeDefault .ro reg.accessMode e.accessMode
-      cacheable := mergeDefault .writeThrough reg.cacheable e.cacheable
+      elemBase := reg.elemBase.merge e.elem e.declared
+      streamable := mergeDeclared e.declared.streamable reg.streamable e.streamable
+      accessMode := mergeDeclared e.declared.accessMode reg.accessMode e.accessMode
+      cacheable := mergeDeclared e.declared.cacheable reg.cacheable e.cacheable
       pollingTime := mergeOpt reg.pollingTime e.pollingTime
       pInvalidators := mergeVec reg.pInvalidators e.pInvalidators }
     bitMask := e.bitMask, sign := e.sign, endianness, unit := e.unit
@@ -1285,7 +1308,7 @@ def pStructEntries (pr : Profile) : Nat → P F (List StructEntryNode)
   | fuel + 1 => do
     match ← next with
     | some (tag, attrs, children) =>
-      let e ← onChild children (pStructEntry pr tag attrs)
+      let e ← onChild children (pStructEntry pr tag attrs children)
       let es ← pStructEntries pr fuel
       return e :: es
     | none => return []
